@@ -1,4 +1,4 @@
-HOOK_COMMITS = ["57ac42604afe0a9cfd866181f1b826dd9676d18a", "75d54ed3b331393ef8ceec27b63bd5c3dbd0c67e", "de166f2df26be9cbffc399523420dec502a095ad"]
+HOOK_COMMITS = ["57ac42604afe0a9cfd866181f1b826dd9676d18a", "75d54ed3b331393ef8ceec27b63bd5c3dbd0c67e", "de166f2df26be9cbffc399523420dec502a095ad", "a8c19993cac6b9f3839396d5f5bf6a5cee75f666"]
 NOT_APPLICABLE = {}
 _NOTE = ("Bounded: TLC explores the specification exhaustively only inside the small constants of the MC_*.cfg files; beyond them the claim rests on "
          "trace validation of recorded executions (exhaustive small alphabets + seeded structured random inputs, threshold-directed widths). Trusted: TLC, "
@@ -44,9 +44,12 @@ TEXTS = {
            "strip-and-sum definition on well-formed strings, additivity and insertion invariance."),
  "C11": _t("find_words of both separators is recorded with pointer-derived offsets on exhaustive small alphabets and random lines with ANSI sequences in every "
            "position; TLC judges losslessness, shape, cached widths and the exact boundary sets (ASCII rule; UAX#14 opportunities from the oracle, "
-           "filtered and mapped as the statement says, none inside a sequence)."),
+           "filtered and mapped as the statement says, none inside a sequence). Step level: every character step of the ASCII separator and every kept "
+           "opportunity / idx_map hit of the Unicode separator is replayed through AsciiStep / UaxStep of the machine MC_Words (spec/TraceWords.tla)."),
  "C12": _t("split_points / split_words / break_apart / break_words recorded with offsets on exhaustive small alphabets and random words; TLC judges every "
-           "clause (lossless, split points, penalty rule, non-empty, bounded, maximal, escape-safe, cached widths, pass-through)."),
+           "clause (lossless, split points, penalty rule, non-empty, bounded, maximal, escape-safe, cached widths, pass-through). Step level: every piece of "
+           "split_words and every visible-character step of break_apart is replayed through SplitStep / SplitEnd / BreakStep of the machine MC_Break, the "
+           "characters of escape sequences as silent machine steps (spec/TraceBreak.tla)."),
  "C13": _t("Plain texts are coloured by the harness (SGR / OSC-8 before, inside, after words); TLC re-checks strip(coloured) = plain and the attachment "
            "precondition itself, then requires stripped lines of the coloured wrap to equal the plain wrap and every sequence to survive whole."),
  "C14": _t("fill applied to its own output on exhaustive small texts and random texts; the side conditions of the statement (no forced break, no overflow) are "
